@@ -258,6 +258,7 @@ class P(Prop):
         except Exception:
             pass
         self._geo = {}
+        self._sb = {}
         self._alive = []
 
     # ---------------------------------------------------------------- generators
@@ -538,7 +539,7 @@ class P(Prop):
         if k == "feseq":
             return len(case["A"]) - 1 >= 3 and any(self.fe_in_domain(c) for c in self.subcases(case))
         if k == "sb":
-            return len(case["pts"]) - 1 >= 3 and case["tol"][0] != "none"
+            return len(case["pts"]) - 1 >= 3 and case["tol"][0] != "none" and self.sb_tables(case) is not None
         return True
 
     # ---------------------------------------------------------------- matrices
@@ -681,6 +682,8 @@ class P(Prop):
                     outs.append({"err": engine.err_kind(e), "detail": str(e)[:200]})
             return {"seq": outs}
         if k == "sb":
+            if self.sb_tables(case) is None:
+                return {"err": "err:geometry", "detail": "tracklib's bounding-rectangle geometry fails on this track"}
             t = self.sb_track(case)
             self._alive.append(t)
             tol = pyval(case["tol"], self.np)
@@ -739,16 +742,40 @@ class P(Prop):
         return t
 
     def sb_tables(self, case):
-        """the module's own cost function of the mode, evaluated with the requested tolerance"""
+        """the module's own cost function of the mode, evaluated with the requested tolerance (cell (i, j) = cost(track, i, j-1,
+        tolerance)); None when tracklib's geometry fails on this track — the convex hull of the bounding rectangle loops for
+        ever on some collinear configurations, a vertical hull edge divides by zero — which is not this property: the case is
+        then outside the domain and the implementation is not even run"""
+        key = json.dumps(case, sort_keys=True)
+        if key in self._sb:
+            return self._sb[key]
+        import signal
         n = len(case["pts"])
         tol = pyval(case["tol"], self.np)
         t = self.sb_track(case)
         f = self.BUILTIN[case["smode"]]
         W = [[0.0] * n for _ in range(n)]
-        if tol is not None:
+
+        def alarm(*a):
+            raise TimeoutError("built-in cost function does not return")
+        old = signal.signal(signal.SIGALRM, alarm)
+        signal.setitimer(signal.ITIMER_REAL, 2.0)
+        try:
             for i in range(n):
                 for j in range(i, n):
-                    W[i][j] = float(f(t, i, j - 1, tol))
+                    W[i][j] = float(f(t, i, j - 1, 0.25 if tol is None else tol))
+            if tol is None:
+                W = [[0.0] * n for _ in range(n)]
+        except BaseException as e:
+            if isinstance(e, KeyboardInterrupt):
+                raise
+            W = None
+        finally:
+            signal.setitimer(signal.ITIMER_REAL, 0)
+            signal.signal(signal.SIGALRM, old)
+        if len(self._sb) > 4000:
+            self._sb.clear()
+        self._sb[key] = W
         return W
 
     def stops_track(self, case):
@@ -909,6 +936,8 @@ class P(Prop):
             return [self.requests(c)[0] for c in self.subcases(case)]
         if k == "sb":
             W = self.sb_tables(case)
+            if W is None:
+                return []
             return ["C12.simplify f %d 4 %s %s %s" % (case["smode"], "none" if case["tol"][0] == "none" else "some",
                                                       self.mtok("f", W), self.mtok("f", W))]
         if k == "stops":
@@ -935,6 +964,8 @@ class P(Prop):
 
     def decode(self, case, replies):
         k = case["kind"]
+        if k == "sb" and not replies:
+            return {"err": "err:geometry"}
         r = replies[0]
         if any(x == "bad-request" for x in replies):
             raise ValueError("bad-request")
@@ -1052,14 +1083,10 @@ class P(Prop):
         if k == "sb":
             tol = pyval(case["tol"], self.np)
             n = len(case["pts"])
-            if tol is None or n < 3:
+            W = self.sb_tables(case)     # the module's own cost function with the requested tolerance
+            if tol is None or n < 3 or W is None:
                 return None, 0
-            t = self.sb_track(case)
-            f = self.BUILTIN[case["smode"]]
-            try:
-                return self.requested_matrix(n, lambda a, e: f(t, a, e, tol)), 1e-9
-            except ZeroDivisionError:
-                return None, 0      # the built-in geometry fails on this track (vertical hull edge): not this property
+            return self.requested_matrix(n, lambda a, e: W[a][e + 1]), 1e-9
         raise ValueError(k)
 
     def spec(self, case, out):
